@@ -33,6 +33,10 @@ Inductive scand := CNone | CWait | CProbed | CUp | CDead.
 Inductive ccand := KNone | KDial | KProbe | KSwapWait | KUp | KFail.
 (** upgrade timer goroutine: parked in select / chose the time-out branch / gone *)
 Inductive tmr := TOff | TArmed | TFiring.
+(** [c_paused]: polling.ClientTransport.Pause was called (tryUpgradeTo, before the probe is sent) and
+    neither Resume (failed attempt) nor Discard (swap) has happened yet: the poll loop issues no
+    new poll.  The probe pong is acted upon only when no poll is in flight any more, so nothing
+    is ever delivered by long-polling after (or in between) what the websocket delivers. *)
 (** the websocket connection *)
 Inductive wst := WNone | WDialing | WOpen | WRefused | WStalled | WCut.
 (** client poll loop (polling.ClientTransport.Run) *)
@@ -52,6 +56,7 @@ Record state := mkState {
   c_ws : bool;
   c_loop : lst;
   c_exit : bool;
+  c_paused : bool;
   c_cand : ccand;
   c_tm : tmr;
   c_rl : nat;
@@ -68,37 +73,39 @@ Record state := mkState {
   broke : bool
 }.
 
-Definition set_s_ws (v : bool) (st : state) : state := mkState v (s_pq st) (s_get st) (s_cand st) (s_noop st) (s_disc st) (s_tm st) (s_closed st) (s_recv st) (s_sent st) (c_ws st) (c_loop st) (c_exit st) (c_cand st) (c_tm st) (c_rl st) (c_closed st) (c_recv st) (c_sent st) (k_req st) (k_resp st) (k_posts st) (k_oks st) (k_ws st) (k_cs st) (k_sc st) (broke st).
-Definition set_s_pq (v : list pkt) (st : state) : state := mkState (s_ws st) v (s_get st) (s_cand st) (s_noop st) (s_disc st) (s_tm st) (s_closed st) (s_recv st) (s_sent st) (c_ws st) (c_loop st) (c_exit st) (c_cand st) (c_tm st) (c_rl st) (c_closed st) (c_recv st) (c_sent st) (k_req st) (k_resp st) (k_posts st) (k_oks st) (k_ws st) (k_cs st) (k_sc st) (broke st).
-Definition set_s_get (v : gst) (st : state) : state := mkState (s_ws st) (s_pq st) v (s_cand st) (s_noop st) (s_disc st) (s_tm st) (s_closed st) (s_recv st) (s_sent st) (c_ws st) (c_loop st) (c_exit st) (c_cand st) (c_tm st) (c_rl st) (c_closed st) (c_recv st) (c_sent st) (k_req st) (k_resp st) (k_posts st) (k_oks st) (k_ws st) (k_cs st) (k_sc st) (broke st).
-Definition set_s_cand (v : scand) (st : state) : state := mkState (s_ws st) (s_pq st) (s_get st) v (s_noop st) (s_disc st) (s_tm st) (s_closed st) (s_recv st) (s_sent st) (c_ws st) (c_loop st) (c_exit st) (c_cand st) (c_tm st) (c_rl st) (c_closed st) (c_recv st) (c_sent st) (k_req st) (k_resp st) (k_posts st) (k_oks st) (k_ws st) (k_cs st) (k_sc st) (broke st).
-Definition set_s_noop (v : nat) (st : state) : state := mkState (s_ws st) (s_pq st) (s_get st) (s_cand st) v (s_disc st) (s_tm st) (s_closed st) (s_recv st) (s_sent st) (c_ws st) (c_loop st) (c_exit st) (c_cand st) (c_tm st) (c_rl st) (c_closed st) (c_recv st) (c_sent st) (k_req st) (k_resp st) (k_posts st) (k_oks st) (k_ws st) (k_cs st) (k_sc st) (broke st).
-Definition set_s_disc (v : nat) (st : state) : state := mkState (s_ws st) (s_pq st) (s_get st) (s_cand st) (s_noop st) v (s_tm st) (s_closed st) (s_recv st) (s_sent st) (c_ws st) (c_loop st) (c_exit st) (c_cand st) (c_tm st) (c_rl st) (c_closed st) (c_recv st) (c_sent st) (k_req st) (k_resp st) (k_posts st) (k_oks st) (k_ws st) (k_cs st) (k_sc st) (broke st).
-Definition set_s_tm (v : tmr) (st : state) : state := mkState (s_ws st) (s_pq st) (s_get st) (s_cand st) (s_noop st) (s_disc st) v (s_closed st) (s_recv st) (s_sent st) (c_ws st) (c_loop st) (c_exit st) (c_cand st) (c_tm st) (c_rl st) (c_closed st) (c_recv st) (c_sent st) (k_req st) (k_resp st) (k_posts st) (k_oks st) (k_ws st) (k_cs st) (k_sc st) (broke st).
-Definition set_s_closed (v : bool) (st : state) : state := mkState (s_ws st) (s_pq st) (s_get st) (s_cand st) (s_noop st) (s_disc st) (s_tm st) v (s_recv st) (s_sent st) (c_ws st) (c_loop st) (c_exit st) (c_cand st) (c_tm st) (c_rl st) (c_closed st) (c_recv st) (c_sent st) (k_req st) (k_resp st) (k_posts st) (k_oks st) (k_ws st) (k_cs st) (k_sc st) (broke st).
-Definition set_s_recv (v : list N) (st : state) : state := mkState (s_ws st) (s_pq st) (s_get st) (s_cand st) (s_noop st) (s_disc st) (s_tm st) (s_closed st) v (s_sent st) (c_ws st) (c_loop st) (c_exit st) (c_cand st) (c_tm st) (c_rl st) (c_closed st) (c_recv st) (c_sent st) (k_req st) (k_resp st) (k_posts st) (k_oks st) (k_ws st) (k_cs st) (k_sc st) (broke st).
-Definition set_s_sent (v : N) (st : state) : state := mkState (s_ws st) (s_pq st) (s_get st) (s_cand st) (s_noop st) (s_disc st) (s_tm st) (s_closed st) (s_recv st) v (c_ws st) (c_loop st) (c_exit st) (c_cand st) (c_tm st) (c_rl st) (c_closed st) (c_recv st) (c_sent st) (k_req st) (k_resp st) (k_posts st) (k_oks st) (k_ws st) (k_cs st) (k_sc st) (broke st).
-Definition set_c_ws (v : bool) (st : state) : state := mkState (s_ws st) (s_pq st) (s_get st) (s_cand st) (s_noop st) (s_disc st) (s_tm st) (s_closed st) (s_recv st) (s_sent st) v (c_loop st) (c_exit st) (c_cand st) (c_tm st) (c_rl st) (c_closed st) (c_recv st) (c_sent st) (k_req st) (k_resp st) (k_posts st) (k_oks st) (k_ws st) (k_cs st) (k_sc st) (broke st).
-Definition set_c_loop (v : lst) (st : state) : state := mkState (s_ws st) (s_pq st) (s_get st) (s_cand st) (s_noop st) (s_disc st) (s_tm st) (s_closed st) (s_recv st) (s_sent st) (c_ws st) v (c_exit st) (c_cand st) (c_tm st) (c_rl st) (c_closed st) (c_recv st) (c_sent st) (k_req st) (k_resp st) (k_posts st) (k_oks st) (k_ws st) (k_cs st) (k_sc st) (broke st).
-Definition set_c_exit (v : bool) (st : state) : state := mkState (s_ws st) (s_pq st) (s_get st) (s_cand st) (s_noop st) (s_disc st) (s_tm st) (s_closed st) (s_recv st) (s_sent st) (c_ws st) (c_loop st) v (c_cand st) (c_tm st) (c_rl st) (c_closed st) (c_recv st) (c_sent st) (k_req st) (k_resp st) (k_posts st) (k_oks st) (k_ws st) (k_cs st) (k_sc st) (broke st).
-Definition set_c_cand (v : ccand) (st : state) : state := mkState (s_ws st) (s_pq st) (s_get st) (s_cand st) (s_noop st) (s_disc st) (s_tm st) (s_closed st) (s_recv st) (s_sent st) (c_ws st) (c_loop st) (c_exit st) v (c_tm st) (c_rl st) (c_closed st) (c_recv st) (c_sent st) (k_req st) (k_resp st) (k_posts st) (k_oks st) (k_ws st) (k_cs st) (k_sc st) (broke st).
-Definition set_c_tm (v : tmr) (st : state) : state := mkState (s_ws st) (s_pq st) (s_get st) (s_cand st) (s_noop st) (s_disc st) (s_tm st) (s_closed st) (s_recv st) (s_sent st) (c_ws st) (c_loop st) (c_exit st) (c_cand st) v (c_rl st) (c_closed st) (c_recv st) (c_sent st) (k_req st) (k_resp st) (k_posts st) (k_oks st) (k_ws st) (k_cs st) (k_sc st) (broke st).
-Definition set_c_rl (v : nat) (st : state) : state := mkState (s_ws st) (s_pq st) (s_get st) (s_cand st) (s_noop st) (s_disc st) (s_tm st) (s_closed st) (s_recv st) (s_sent st) (c_ws st) (c_loop st) (c_exit st) (c_cand st) (c_tm st) v (c_closed st) (c_recv st) (c_sent st) (k_req st) (k_resp st) (k_posts st) (k_oks st) (k_ws st) (k_cs st) (k_sc st) (broke st).
-Definition set_c_closed (v : bool) (st : state) : state := mkState (s_ws st) (s_pq st) (s_get st) (s_cand st) (s_noop st) (s_disc st) (s_tm st) (s_closed st) (s_recv st) (s_sent st) (c_ws st) (c_loop st) (c_exit st) (c_cand st) (c_tm st) (c_rl st) v (c_recv st) (c_sent st) (k_req st) (k_resp st) (k_posts st) (k_oks st) (k_ws st) (k_cs st) (k_sc st) (broke st).
-Definition set_c_recv (v : list N) (st : state) : state := mkState (s_ws st) (s_pq st) (s_get st) (s_cand st) (s_noop st) (s_disc st) (s_tm st) (s_closed st) (s_recv st) (s_sent st) (c_ws st) (c_loop st) (c_exit st) (c_cand st) (c_tm st) (c_rl st) (c_closed st) v (c_sent st) (k_req st) (k_resp st) (k_posts st) (k_oks st) (k_ws st) (k_cs st) (k_sc st) (broke st).
-Definition set_c_sent (v : N) (st : state) : state := mkState (s_ws st) (s_pq st) (s_get st) (s_cand st) (s_noop st) (s_disc st) (s_tm st) (s_closed st) (s_recv st) (s_sent st) (c_ws st) (c_loop st) (c_exit st) (c_cand st) (c_tm st) (c_rl st) (c_closed st) (c_recv st) v (k_req st) (k_resp st) (k_posts st) (k_oks st) (k_ws st) (k_cs st) (k_sc st) (broke st).
-Definition set_k_req (v : bool) (st : state) : state := mkState (s_ws st) (s_pq st) (s_get st) (s_cand st) (s_noop st) (s_disc st) (s_tm st) (s_closed st) (s_recv st) (s_sent st) (c_ws st) (c_loop st) (c_exit st) (c_cand st) (c_tm st) (c_rl st) (c_closed st) (c_recv st) (c_sent st) v (k_resp st) (k_posts st) (k_oks st) (k_ws st) (k_cs st) (k_sc st) (broke st).
-Definition set_k_resp (v : resp) (st : state) : state := mkState (s_ws st) (s_pq st) (s_get st) (s_cand st) (s_noop st) (s_disc st) (s_tm st) (s_closed st) (s_recv st) (s_sent st) (c_ws st) (c_loop st) (c_exit st) (c_cand st) (c_tm st) (c_rl st) (c_closed st) (c_recv st) (c_sent st) (k_req st) v (k_posts st) (k_oks st) (k_ws st) (k_cs st) (k_sc st) (broke st).
-Definition set_k_posts (v : list N) (st : state) : state := mkState (s_ws st) (s_pq st) (s_get st) (s_cand st) (s_noop st) (s_disc st) (s_tm st) (s_closed st) (s_recv st) (s_sent st) (c_ws st) (c_loop st) (c_exit st) (c_cand st) (c_tm st) (c_rl st) (c_closed st) (c_recv st) (c_sent st) (k_req st) (k_resp st) v (k_oks st) (k_ws st) (k_cs st) (k_sc st) (broke st).
-Definition set_k_oks (v : nat) (st : state) : state := mkState (s_ws st) (s_pq st) (s_get st) (s_cand st) (s_noop st) (s_disc st) (s_tm st) (s_closed st) (s_recv st) (s_sent st) (c_ws st) (c_loop st) (c_exit st) (c_cand st) (c_tm st) (c_rl st) (c_closed st) (c_recv st) (c_sent st) (k_req st) (k_resp st) (k_posts st) v (k_ws st) (k_cs st) (k_sc st) (broke st).
-Definition set_k_ws (v : wst) (st : state) : state := mkState (s_ws st) (s_pq st) (s_get st) (s_cand st) (s_noop st) (s_disc st) (s_tm st) (s_closed st) (s_recv st) (s_sent st) (c_ws st) (c_loop st) (c_exit st) (c_cand st) (c_tm st) (c_rl st) (c_closed st) (c_recv st) (c_sent st) (k_req st) (k_resp st) (k_posts st) (k_oks st) v (k_cs st) (k_sc st) (broke st).
-Definition set_k_cs (v : list pkt) (st : state) : state := mkState (s_ws st) (s_pq st) (s_get st) (s_cand st) (s_noop st) (s_disc st) (s_tm st) (s_closed st) (s_recv st) (s_sent st) (c_ws st) (c_loop st) (c_exit st) (c_cand st) (c_tm st) (c_rl st) (c_closed st) (c_recv st) (c_sent st) (k_req st) (k_resp st) (k_posts st) (k_oks st) (k_ws st) v (k_sc st) (broke st).
-Definition set_k_sc (v : list pkt) (st : state) : state := mkState (s_ws st) (s_pq st) (s_get st) (s_cand st) (s_noop st) (s_disc st) (s_tm st) (s_closed st) (s_recv st) (s_sent st) (c_ws st) (c_loop st) (c_exit st) (c_cand st) (c_tm st) (c_rl st) (c_closed st) (c_recv st) (c_sent st) (k_req st) (k_resp st) (k_posts st) (k_oks st) (k_ws st) (k_cs st) v (broke st).
-Definition set_broke (v : bool) (st : state) : state := mkState (s_ws st) (s_pq st) (s_get st) (s_cand st) (s_noop st) (s_disc st) (s_tm st) (s_closed st) (s_recv st) (s_sent st) (c_ws st) (c_loop st) (c_exit st) (c_cand st) (c_tm st) (c_rl st) (c_closed st) (c_recv st) (c_sent st) (k_req st) (k_resp st) (k_posts st) (k_oks st) (k_ws st) (k_cs st) (k_sc st) v.
+Definition set_s_ws (v : bool) (st : state) : state := mkState v (s_pq st) (s_get st) (s_cand st) (s_noop st) (s_disc st) (s_tm st) (s_closed st) (s_recv st) (s_sent st) (c_ws st) (c_loop st) (c_exit st) (c_paused st) (c_cand st) (c_tm st) (c_rl st) (c_closed st) (c_recv st) (c_sent st) (k_req st) (k_resp st) (k_posts st) (k_oks st) (k_ws st) (k_cs st) (k_sc st) (broke st).
+Definition set_s_pq (v : list pkt) (st : state) : state := mkState (s_ws st) v (s_get st) (s_cand st) (s_noop st) (s_disc st) (s_tm st) (s_closed st) (s_recv st) (s_sent st) (c_ws st) (c_loop st) (c_exit st) (c_paused st) (c_cand st) (c_tm st) (c_rl st) (c_closed st) (c_recv st) (c_sent st) (k_req st) (k_resp st) (k_posts st) (k_oks st) (k_ws st) (k_cs st) (k_sc st) (broke st).
+Definition set_s_get (v : gst) (st : state) : state := mkState (s_ws st) (s_pq st) v (s_cand st) (s_noop st) (s_disc st) (s_tm st) (s_closed st) (s_recv st) (s_sent st) (c_ws st) (c_loop st) (c_exit st) (c_paused st) (c_cand st) (c_tm st) (c_rl st) (c_closed st) (c_recv st) (c_sent st) (k_req st) (k_resp st) (k_posts st) (k_oks st) (k_ws st) (k_cs st) (k_sc st) (broke st).
+Definition set_s_cand (v : scand) (st : state) : state := mkState (s_ws st) (s_pq st) (s_get st) v (s_noop st) (s_disc st) (s_tm st) (s_closed st) (s_recv st) (s_sent st) (c_ws st) (c_loop st) (c_exit st) (c_paused st) (c_cand st) (c_tm st) (c_rl st) (c_closed st) (c_recv st) (c_sent st) (k_req st) (k_resp st) (k_posts st) (k_oks st) (k_ws st) (k_cs st) (k_sc st) (broke st).
+Definition set_s_noop (v : nat) (st : state) : state := mkState (s_ws st) (s_pq st) (s_get st) (s_cand st) v (s_disc st) (s_tm st) (s_closed st) (s_recv st) (s_sent st) (c_ws st) (c_loop st) (c_exit st) (c_paused st) (c_cand st) (c_tm st) (c_rl st) (c_closed st) (c_recv st) (c_sent st) (k_req st) (k_resp st) (k_posts st) (k_oks st) (k_ws st) (k_cs st) (k_sc st) (broke st).
+Definition set_s_disc (v : nat) (st : state) : state := mkState (s_ws st) (s_pq st) (s_get st) (s_cand st) (s_noop st) v (s_tm st) (s_closed st) (s_recv st) (s_sent st) (c_ws st) (c_loop st) (c_exit st) (c_paused st) (c_cand st) (c_tm st) (c_rl st) (c_closed st) (c_recv st) (c_sent st) (k_req st) (k_resp st) (k_posts st) (k_oks st) (k_ws st) (k_cs st) (k_sc st) (broke st).
+Definition set_s_tm (v : tmr) (st : state) : state := mkState (s_ws st) (s_pq st) (s_get st) (s_cand st) (s_noop st) (s_disc st) v (s_closed st) (s_recv st) (s_sent st) (c_ws st) (c_loop st) (c_exit st) (c_paused st) (c_cand st) (c_tm st) (c_rl st) (c_closed st) (c_recv st) (c_sent st) (k_req st) (k_resp st) (k_posts st) (k_oks st) (k_ws st) (k_cs st) (k_sc st) (broke st).
+Definition set_s_closed (v : bool) (st : state) : state := mkState (s_ws st) (s_pq st) (s_get st) (s_cand st) (s_noop st) (s_disc st) (s_tm st) v (s_recv st) (s_sent st) (c_ws st) (c_loop st) (c_exit st) (c_paused st) (c_cand st) (c_tm st) (c_rl st) (c_closed st) (c_recv st) (c_sent st) (k_req st) (k_resp st) (k_posts st) (k_oks st) (k_ws st) (k_cs st) (k_sc st) (broke st).
+Definition set_s_recv (v : list N) (st : state) : state := mkState (s_ws st) (s_pq st) (s_get st) (s_cand st) (s_noop st) (s_disc st) (s_tm st) (s_closed st) v (s_sent st) (c_ws st) (c_loop st) (c_exit st) (c_paused st) (c_cand st) (c_tm st) (c_rl st) (c_closed st) (c_recv st) (c_sent st) (k_req st) (k_resp st) (k_posts st) (k_oks st) (k_ws st) (k_cs st) (k_sc st) (broke st).
+Definition set_s_sent (v : N) (st : state) : state := mkState (s_ws st) (s_pq st) (s_get st) (s_cand st) (s_noop st) (s_disc st) (s_tm st) (s_closed st) (s_recv st) v (c_ws st) (c_loop st) (c_exit st) (c_paused st) (c_cand st) (c_tm st) (c_rl st) (c_closed st) (c_recv st) (c_sent st) (k_req st) (k_resp st) (k_posts st) (k_oks st) (k_ws st) (k_cs st) (k_sc st) (broke st).
+Definition set_c_ws (v : bool) (st : state) : state := mkState (s_ws st) (s_pq st) (s_get st) (s_cand st) (s_noop st) (s_disc st) (s_tm st) (s_closed st) (s_recv st) (s_sent st) v (c_loop st) (c_exit st) (c_paused st) (c_cand st) (c_tm st) (c_rl st) (c_closed st) (c_recv st) (c_sent st) (k_req st) (k_resp st) (k_posts st) (k_oks st) (k_ws st) (k_cs st) (k_sc st) (broke st).
+Definition set_c_loop (v : lst) (st : state) : state := mkState (s_ws st) (s_pq st) (s_get st) (s_cand st) (s_noop st) (s_disc st) (s_tm st) (s_closed st) (s_recv st) (s_sent st) (c_ws st) v (c_exit st) (c_paused st) (c_cand st) (c_tm st) (c_rl st) (c_closed st) (c_recv st) (c_sent st) (k_req st) (k_resp st) (k_posts st) (k_oks st) (k_ws st) (k_cs st) (k_sc st) (broke st).
+Definition set_c_exit (v : bool) (st : state) : state := mkState (s_ws st) (s_pq st) (s_get st) (s_cand st) (s_noop st) (s_disc st) (s_tm st) (s_closed st) (s_recv st) (s_sent st) (c_ws st) (c_loop st) v (c_paused st) (c_cand st) (c_tm st) (c_rl st) (c_closed st) (c_recv st) (c_sent st) (k_req st) (k_resp st) (k_posts st) (k_oks st) (k_ws st) (k_cs st) (k_sc st) (broke st).
+Definition set_c_paused (v : bool) (st : state) : state := mkState (s_ws st) (s_pq st) (s_get st) (s_cand st) (s_noop st) (s_disc st) (s_tm st) (s_closed st) (s_recv st) (s_sent st) (c_ws st) (c_loop st) (c_exit st) v (c_cand st) (c_tm st) (c_rl st) (c_closed st) (c_recv st) (c_sent st) (k_req st) (k_resp st) (k_posts st) (k_oks st) (k_ws st) (k_cs st) (k_sc st) (broke st).
+Definition set_c_cand (v : ccand) (st : state) : state := mkState (s_ws st) (s_pq st) (s_get st) (s_cand st) (s_noop st) (s_disc st) (s_tm st) (s_closed st) (s_recv st) (s_sent st) (c_ws st) (c_loop st) (c_exit st) (c_paused st) v (c_tm st) (c_rl st) (c_closed st) (c_recv st) (c_sent st) (k_req st) (k_resp st) (k_posts st) (k_oks st) (k_ws st) (k_cs st) (k_sc st) (broke st).
+Definition set_c_tm (v : tmr) (st : state) : state := mkState (s_ws st) (s_pq st) (s_get st) (s_cand st) (s_noop st) (s_disc st) (s_tm st) (s_closed st) (s_recv st) (s_sent st) (c_ws st) (c_loop st) (c_exit st) (c_paused st) (c_cand st) v (c_rl st) (c_closed st) (c_recv st) (c_sent st) (k_req st) (k_resp st) (k_posts st) (k_oks st) (k_ws st) (k_cs st) (k_sc st) (broke st).
+Definition set_c_rl (v : nat) (st : state) : state := mkState (s_ws st) (s_pq st) (s_get st) (s_cand st) (s_noop st) (s_disc st) (s_tm st) (s_closed st) (s_recv st) (s_sent st) (c_ws st) (c_loop st) (c_exit st) (c_paused st) (c_cand st) (c_tm st) v (c_closed st) (c_recv st) (c_sent st) (k_req st) (k_resp st) (k_posts st) (k_oks st) (k_ws st) (k_cs st) (k_sc st) (broke st).
+Definition set_c_closed (v : bool) (st : state) : state := mkState (s_ws st) (s_pq st) (s_get st) (s_cand st) (s_noop st) (s_disc st) (s_tm st) (s_closed st) (s_recv st) (s_sent st) (c_ws st) (c_loop st) (c_exit st) (c_paused st) (c_cand st) (c_tm st) (c_rl st) v (c_recv st) (c_sent st) (k_req st) (k_resp st) (k_posts st) (k_oks st) (k_ws st) (k_cs st) (k_sc st) (broke st).
+Definition set_c_recv (v : list N) (st : state) : state := mkState (s_ws st) (s_pq st) (s_get st) (s_cand st) (s_noop st) (s_disc st) (s_tm st) (s_closed st) (s_recv st) (s_sent st) (c_ws st) (c_loop st) (c_exit st) (c_paused st) (c_cand st) (c_tm st) (c_rl st) (c_closed st) v (c_sent st) (k_req st) (k_resp st) (k_posts st) (k_oks st) (k_ws st) (k_cs st) (k_sc st) (broke st).
+Definition set_c_sent (v : N) (st : state) : state := mkState (s_ws st) (s_pq st) (s_get st) (s_cand st) (s_noop st) (s_disc st) (s_tm st) (s_closed st) (s_recv st) (s_sent st) (c_ws st) (c_loop st) (c_exit st) (c_paused st) (c_cand st) (c_tm st) (c_rl st) (c_closed st) (c_recv st) v (k_req st) (k_resp st) (k_posts st) (k_oks st) (k_ws st) (k_cs st) (k_sc st) (broke st).
+Definition set_k_req (v : bool) (st : state) : state := mkState (s_ws st) (s_pq st) (s_get st) (s_cand st) (s_noop st) (s_disc st) (s_tm st) (s_closed st) (s_recv st) (s_sent st) (c_ws st) (c_loop st) (c_exit st) (c_paused st) (c_cand st) (c_tm st) (c_rl st) (c_closed st) (c_recv st) (c_sent st) v (k_resp st) (k_posts st) (k_oks st) (k_ws st) (k_cs st) (k_sc st) (broke st).
+Definition set_k_resp (v : resp) (st : state) : state := mkState (s_ws st) (s_pq st) (s_get st) (s_cand st) (s_noop st) (s_disc st) (s_tm st) (s_closed st) (s_recv st) (s_sent st) (c_ws st) (c_loop st) (c_exit st) (c_paused st) (c_cand st) (c_tm st) (c_rl st) (c_closed st) (c_recv st) (c_sent st) (k_req st) v (k_posts st) (k_oks st) (k_ws st) (k_cs st) (k_sc st) (broke st).
+Definition set_k_posts (v : list N) (st : state) : state := mkState (s_ws st) (s_pq st) (s_get st) (s_cand st) (s_noop st) (s_disc st) (s_tm st) (s_closed st) (s_recv st) (s_sent st) (c_ws st) (c_loop st) (c_exit st) (c_paused st) (c_cand st) (c_tm st) (c_rl st) (c_closed st) (c_recv st) (c_sent st) (k_req st) (k_resp st) v (k_oks st) (k_ws st) (k_cs st) (k_sc st) (broke st).
+Definition set_k_oks (v : nat) (st : state) : state := mkState (s_ws st) (s_pq st) (s_get st) (s_cand st) (s_noop st) (s_disc st) (s_tm st) (s_closed st) (s_recv st) (s_sent st) (c_ws st) (c_loop st) (c_exit st) (c_paused st) (c_cand st) (c_tm st) (c_rl st) (c_closed st) (c_recv st) (c_sent st) (k_req st) (k_resp st) (k_posts st) v (k_ws st) (k_cs st) (k_sc st) (broke st).
+Definition set_k_ws (v : wst) (st : state) : state := mkState (s_ws st) (s_pq st) (s_get st) (s_cand st) (s_noop st) (s_disc st) (s_tm st) (s_closed st) (s_recv st) (s_sent st) (c_ws st) (c_loop st) (c_exit st) (c_paused st) (c_cand st) (c_tm st) (c_rl st) (c_closed st) (c_recv st) (c_sent st) (k_req st) (k_resp st) (k_posts st) (k_oks st) v (k_cs st) (k_sc st) (broke st).
+Definition set_k_cs (v : list pkt) (st : state) : state := mkState (s_ws st) (s_pq st) (s_get st) (s_cand st) (s_noop st) (s_disc st) (s_tm st) (s_closed st) (s_recv st) (s_sent st) (c_ws st) (c_loop st) (c_exit st) (c_paused st) (c_cand st) (c_tm st) (c_rl st) (c_closed st) (c_recv st) (c_sent st) (k_req st) (k_resp st) (k_posts st) (k_oks st) (k_ws st) v (k_sc st) (broke st).
+Definition set_k_sc (v : list pkt) (st : state) : state := mkState (s_ws st) (s_pq st) (s_get st) (s_cand st) (s_noop st) (s_disc st) (s_tm st) (s_closed st) (s_recv st) (s_sent st) (c_ws st) (c_loop st) (c_exit st) (c_paused st) (c_cand st) (c_tm st) (c_rl st) (c_closed st) (c_recv st) (c_sent st) (k_req st) (k_resp st) (k_posts st) (k_oks st) (k_ws st) (k_cs st) v (broke st).
+Definition set_broke (v : bool) (st : state) : state := mkState (s_ws st) (s_pq st) (s_get st) (s_cand st) (s_noop st) (s_disc st) (s_tm st) (s_closed st) (s_recv st) (s_sent st) (c_ws st) (c_loop st) (c_exit st) (c_paused st) (c_cand st) (c_tm st) (c_rl st) (c_closed st) (c_recv st) (c_sent st) (k_req st) (k_resp st) (k_posts st) (k_oks st) (k_ws st) (k_cs st) (k_sc st) v.
+
 
 Definition init : state :=
   mkState false [] GIdle CNone 0 0 TOff false [] 0
-          false LIdle false KNone TOff 0 false [] 0
+          false LIdle false false KNone TOff 0 false [] 0
           false RNone [] 0 WNone [] [] false.
 
 (** ** helpers *)
@@ -183,8 +190,9 @@ Definition step (l : label) (st : state) : option state :=
       end
   | CPollStart =>
       match c_loop st with
-      | LIdle => Some (if c_exit st then set_c_loop LExit st
-                       else set_c_loop LFlight (set_k_req true st))
+      | LIdle => if c_exit st then Some (set_c_loop LExit st)
+                 else if c_paused st then None   (* parked by Pause until Resume / Discard *)
+                 else Some (set_c_loop LFlight (set_k_req true st))
       | _ => None
       end
   | GetArrive =>
@@ -255,8 +263,9 @@ Definition step (l : label) (st : state) : option state :=
   | CDialOk =>
       match c_cand st, k_ws st with
       | KDial, WOpen =>
-          (* Handshake ok; go t.Run(); go t.Send(ping "probe"); timer armed *)
-          Some (set_c_cand KProbe (set_c_tm TArmed (set_k_cs (k_cs st ++ [Ping]) st)))
+          (* Handshake ok; old.Pause() (long-polling stops after the poll in flight); go t.Run();
+             go t.Send(ping "probe"); timer armed *)
+          Some (set_c_paused true (set_c_cand KProbe (set_c_tm TArmed (set_k_cs (k_cs st ++ [Ping]) st))))
       | _, _ => None
       end
   | CDialFail =>
@@ -296,8 +305,17 @@ Definition step (l : label) (st : state) : option state :=
           match c_cand st with
           | KProbe =>
               match p with
-              | Pong => Some (set_c_cand KSwapWait (set_c_tm (tm_done (c_tm st)) st1))
-              | _ => Some (set_c_cand KFail (ws_kill st1))
+              | Pong =>
+                  (* the handler waits until polling has stopped (the poll in flight has returned
+                     and its packets were delivered); then it and the timer decide under one
+                     mutex: if the timer already chose its time-out branch the pong is dropped *)
+                  match c_loop st, c_tm st with
+                  | LFlight, TFiring => Some st1
+                  | LFlight, _ => None
+                  | _, TFiring => Some st1
+                  | _, _ => Some (set_c_cand KSwapWait (set_c_tm (tm_done (c_tm st)) st1))
+                  end
+              | _ => Some (set_c_paused false (set_c_cand KFail (ws_kill st1)))
               end
           | KUp => Some (match p with
                          | Msg n => set_c_recv (c_recv st ++ [n]) st1
@@ -310,7 +328,7 @@ Definition step (l : label) (st : state) : option state :=
       (* finishUpgradeTo: transportMu.Lock (needs every Send to have returned); swap; old.Discard();
          t.Send(UPGRADE); go upgradeDone *)
       match c_cand st, c_rl st with
-      | KSwapWait, O => Some (ws_cs Upg (set_c_cand KUp (set_c_ws true (set_c_exit true st))))
+      | KSwapWait, O => Some (ws_cs Upg (set_c_cand KUp (set_c_ws true (set_c_exit true (set_c_paused false st)))))
       | _, _ => None
       end
   | SNoopGo =>
@@ -346,7 +364,7 @@ Definition step (l : label) (st : state) : option state :=
           let st1 := set_broke (broke st || c_committed st) (set_c_tm TOff st) in
           let st2 := match k_ws st with WOpen => ws_kill st1 | _ => st1 end in
           Some (match c_cand st with
-                | KProbe => set_c_cand KFail st2
+                | KProbe => set_c_paused false (set_c_cand KFail st2)   (* Resume(); t.Close() *)
                 | KUp => c_on_transport_close true st2
                 | _ => st2
                 end)
